@@ -117,7 +117,7 @@ for line in open(os.path.join(V, "DESIGN.md"), errors="replace"):
     cells = [c.strip() for c in line.split("|")]
     if len(cells) >= 5 and re.fullmatch(r"C\d\d[a-z]", cells[1] or "") and cells[1] not in T:
         T[cells[1]] = (cells[2].replace("`", ""), cells[3].replace("`", ""))
-for rj in ("seed_round6.json", "seed_round7.json", "seed_round8.json"):
+for rj in ("seed_round6.json", "seed_round7.json", "seed_round8.json", "seed_round9.json"):
     r6 = os.path.join(V, "tools", rj)
     if os.path.exists(r6):
         for k, v in json.load(open(r6)).items():
@@ -142,6 +142,12 @@ for pid, (what, needs) in sorted(T.items()):
     failed = sorted(set(re.findall(r"- (test-[\w-]+) \(", log)))
     caught = {c: v["rules"] for c, v in mx.get("seeded/%s/patch.diff" % pid, {}).items()
               if isinstance(v, dict) and v.get("rc") == 1}
+    oc = os.path.join(d, "own_check.out")
+    if not caught and os.path.exists(oc):
+        # rounds imported with tools/import_round9.sh: the property's own quick check against the patched copy
+        txt = open(oc).read()
+        if "VIOLATION property=%s" % pid[:3] in txt:
+            caught = {pid[:3]: sorted(set(re.findall(r"finding \[([\w-]+)\]", txt)))}
     meta = {
         "breaks_property": pid[:3],
         "change": what,
